@@ -829,6 +829,9 @@ class Interp:
                 return self.cast_int(v, rv["from"], rv["ty"])
             if ck.startswith("PointerCoercion") or ck in ("PtrToPtr", "Transmute", "Subtype"):
                 return v
+            if ck == "PointerExposeProvenance":
+                self.run.event("ptr_to_int", self.where())
+                return Sym("addr", (), rv["ty"] if rv["ty"] in INT_TYPES else "usize", attrs={"name": "addr"})
             raise self.unanalysable("cast kind %s" % ck)
         if k == "repeat":
             v = self.eval_operand(fr, rv["o"])
@@ -847,7 +850,16 @@ class Interp:
         body = self.prog.bodies.get(key)
         if body is None:
             raise self.unanalysable("no body for %s" % key)
+        if key in self.stack and any(isinstance(x, Ref) and getattr(getattr(x.box, "cell", None), "origin", "") == "inner" for x in args):
+            # re-entered with an object taken out of unknown nested content: the recursion depth is the nesting depth
+            self.run.panics.append(("unbounded_recursion", key))
+            raise PathEnd("panic", "unbounded recursion in %s over nested/cyclic objects (stack exhaustion)" % key)
         if self.depth >= self.max_depth:
+            rec = [k for k in set(self.stack) if self.stack.count(k) >= 5]
+            if rec:
+                # recursion whose depth is governed by the (unbounded, possibly cyclic) abstract data
+                self.run.panics.append(("unbounded_recursion", sorted(rec)[0]))
+                raise PathEnd("panic", "unbounded recursion in %s over nested/cyclic objects (stack exhaustion)" % sorted(rec)[0])
             raise self.unanalysable("call depth exceeded at %s" % key)
         fr = Frame(key, body)
         return self.exec_frame(fr, args)
